@@ -7,14 +7,17 @@
 (* numbers (sel.ndjson: [u, ra, rb] lines drawn from the seed):            *)
 (*   W  walk family   index -> (forest, cwd, abs, trail, components);      *)
 (*                    ra/rb -> the remaining coordinates                   *)
-(*      All3 = TRUE adds EVERY string with at most 3 components (relative: *)
-(*      from every cwd of every forest; absolute: once per forest)         *)
+(*      the exhaustive block: EVERY string with at most 3 components       *)
+(*      (relative: from every cwd of every forest; absolute: once per      *)
+(*      forest), written in A3Parts slices by parallel TLC runs            *)
 (*   K  class family  every open-family call x access mode x SUBSET KFlags *)
 (*   A  argument family  every call x every descriptor encoding x 4 shapes *)
 (***************************************************************************)
 EXTENDS PathWalk, Json
 
-CONSTANTS Seed, All3, KFlags, KKinds, AForests
+CONSTANTS Seed, KFlags, KKinds, AForests,
+          Rest,             \* TRUE: write the forests, the sampled W cases and the families K and A
+          A3Part, A3Parts   \* slice A3Part of A3Parts of the exhaustive W block (0: none)
 
 Sel == ndJsonDeserialize("sel.ndjson")
 
@@ -93,7 +96,12 @@ NAbs3 == NP3 * 2 * NF
 All3Index(j) ==
   IF j < NRel3 THEN Idx(j \div (2 * NC * NF), 0, (j \div (NC * NF)) % 2, (j \div NF) % NC, j % NF)
   ELSE LET k == j - NRel3 IN Idx(k \div (2 * NF), 1, (k \div NF) % 2, k % NC, k % NF)
-WAll3 == IF All3 THEN [ j \in 1..(NRel3 + NAbs3) |-> WCase(All3Index(j - 1), Ra(j - 1), Rb(j - 1)) ] ELSE <<>>
+NAll3 == NRel3 + NAbs3
+A3Lo  == ((A3Part - 1) * NAll3) \div A3Parts + 1
+A3Hi  == (A3Part * NAll3) \div A3Parts
+WAll3 == IF A3Part > 0 THEN [ k \in 1..(A3Hi - A3Lo + 1) |->
+                               WCase(All3Index(A3Lo + k - 2), Ra(A3Lo + k - 2), Rb(A3Lo + k - 2)) ]
+         ELSE <<>>
 
 \* ---- K: class of every open flag word
 KCases ==
@@ -113,13 +121,13 @@ ACases ==
        DK(7, 1), WithPre(Shapes[s], x, 2), DK(1, 1), WithPre(Shapes[(s % 4) + 1], 11 - x, 1)) :
       f \in AForests, sc \in ToSet(Syscalls), x \in 4..7, s \in {1, 3, 4} }
 
-Cases == WAll3 \o WSel \o SetToSeq(KCases) \o SetToSeq(ACases)
+Cases == WAll3 \o (IF Rest THEN WSel \o SetToSeq(KCases) \o SetToSeq(ACases) ELSE <<>>)
 
 Forests == [ i \in 1..NF |-> [id |-> i,
                nodes |-> SetToSeq({ [p |-> p, t |-> Forest(i)[p].t, abs |-> Forest(i)[p].abs, tgt |-> Forest(i)[p].tgt] :
                                      p \in DOMAIN Forest(i) })] ]
 
-ASSUME ndJsonSerialize("forests.ndjson", Forests)
+ASSUME Rest => ndJsonSerialize("forests.ndjson", Forests)
 ASSUME ndJsonSerialize("cases.ndjson", Cases)
 ASSUME PrintT(<<"generated", Len(Cases), "N3", N3, "N4", N4>>)
 VARIABLE x
